@@ -32,7 +32,9 @@ BAD = ['', ' ', '\t', '  \n', 'P', 'PT', ' PT ', 'T', 'T1H', 'P1H', 'P1S', 'PT1D
        '1h;2m', '1h,2m', '1h+2m', 'PT1H 30M', 'P 1D', 'PT-1S', 'P-1D', '1:30', '0x10s', '1_0s',
        '1.5h1m', '1,5h 1m', '0.5d1h', '1.5d0.5h', '2.5m3.5s', 'P1.5DT1H', 'PT1.5H1M', 'PT1,5M1S',
        '1.5h0m', '1.5h0m0s', '0.5d0h', '2.5m0', '2.5m0s', 'P1.5DT0H', 'PT1.5H0M', 'PT1.5M0S', 'PT0.5H0S',
-       'P1Y', 'P1M', 'P2Y3M', 'P1Y1D', 'P1MT1M', 'P0Y1M', 'P0.5Y']
+       'P1Y', 'P1M', 'P2Y3M', 'P1Y1D', 'P1MT1M', 'P0Y1M', 'P0.5Y',
+       # numbers in Python's float syntax that are no durations
+       '-5', '+5', '1e3', '1E3', '1e-2', '1_000', 'inf', '-inf', 'nan', 'Infinity', '1e3s', '\u0663']
 
 
 def models(tier, seed):
